@@ -184,7 +184,6 @@ impl Sectors {
 //@@ loop 0
                 invariant
                     self.wf(), self.size == old(self).size,
-                    start == id as usize * self.size, end == start + self.size,
                     self.data@.len() == end,
                     data0.len() <= len <= end,
                     data0 == old(self).data@, total == old(self).total(old(r)),
@@ -209,7 +208,7 @@ impl Sectors {
                         assert((*r).rem().len() == 0);
                         assert(self.data@.take(len as int) + (*r).rem() =~= self.data@.take(len as int));
                         assert(total.len() == len);
-                        assert((id as int + 1) * self.size as int == end as int) by (nonlinear_arith) requires start as int == id as int * self.size as int, end as int == start + self.size;
+                        assert((id as int + 1) * (self.size as int) == id as int * (self.size as int) + self.size as int) by (nonlinear_arith);
                         if start <= len {
                             assert(self.data@.subrange(start as int, len as int) =~= total.skip(start as int));
                         }
@@ -220,7 +219,7 @@ impl Sectors {
                     }
 //@@ before /Ok\(&self/#1of2
         proof {
-            assert((id as int + 1) * self.size as int == end as int) by (nonlinear_arith) requires start as int == id as int * self.size as int, end as int == start + self.size;
+            assert((id as int + 1) * (self.size as int) == id as int * (self.size as int) + self.size as int) by (nonlinear_arith);
             if end as int <= data0.len() {
                 assert(self.data@ == data0);
                 assert(total == data0 + (*r).rem());
@@ -311,7 +310,7 @@ map_err(|e| -> (ce: CfbError) ensures ce is Io { CfbError::Io(e) })
                     fl = (fl - 1) as nat;
                 }
             }
-//@@ before /if len > 0 \{\s*chain\.truncate/
+//@@ before /Ok\(chain\)/
         proof {
             if okx {
                 assert(all.skip(done.len() as int).len() == 0);
